@@ -15,6 +15,7 @@ C_TEXT = {
     2: 'import pytest\n\n\n@pytest.fixture\ndef a(b):\n    return b\n\n\n@pytest.fixture\ndef b(a):\n    return a\n',
     3: 'import pytest\n\n\n@pytest.fixture\ndef a():\n    return 1\n',
     4: 'import pytest\n',
+    5: 'import pytest\n\n\n@pytest.fixture\ndef a(b):\n    return b\n\n\n@pytest.fixture\ndef b():\n    return 1\n',
 }
 T_TEXT = {
     1: 'def test_1():\n    result = a.value\n    assert result\n',
@@ -79,7 +80,7 @@ def check_c19(tier):
         ck = json.dumps(c["cfg"], sort_keys=True)
         ext = False
         for d in ("c", "t"):
-            for v in (1, 2, 3, 4):
+            for v in (1, 2, 3, 4, 5):
                 if (ck, json.dumps(c["hist"] + [{"d": d, "v": v}])) in keys:
                     ext = True
                     break
